@@ -161,7 +161,7 @@ def main():
                 files=["sopht/numeric/immersed_boundary_ops/EulerianLagrangianGridCommunicator2D.py", "sopht/numeric/immersed_boundary_ops/EulerianLagrangianGridCommunicator3D.py"])
     chk.maybe_replay()
     sopht_modules()
-    rts = ["float64"] if chk.quick else ["float64", "float32"]
+    rts = ["float64", "float32"]
     for rt in rts:
         for dim in (2, 3):
             grid = (7, 8) if dim == 2 else (6, 7, 8)
